@@ -197,6 +197,8 @@ type Hit struct {
 	Status   int
 	Body     string
 	Panic    interface{}
+	// Boomed: the handler that ran was one that panics on purpose (Reg.Boom)
+	Boomed bool
 }
 
 // App is a Flame instance instrumented to report hits.
@@ -270,6 +272,9 @@ func (a *App) Register(i int, g Reg) (err interface{}) {
 			}
 		}
 		if g.Boom {
+			if a.cur != nil {
+				a.cur.Boomed = true
+			}
 			panic(Boom{})
 		}
 		c.ResponseWriter().WriteHeader(http.StatusOK)
